@@ -20,11 +20,22 @@ macro_rules! entry {
 	($ctx:expr, $stream:expr, $filter:expr, $t:ty, zw=$zw:expr, small=$small:expr, budget=$b:expr) => {{
 		let name = stringify!($t);
 		if $filter.map_or(true, |f: &str| name.contains(f)) {
-			run_type::<$t>($ctx, $stream, name, &TypeOpts { zero_width_elems: $zw, small_alphabet: $small, budget: $b });
+			let o = TypeOpts { zero_width_elems: $zw, small_alphabet: $small, budget: $b };
+			if $stream == "mem" {
+				crate::streams::run_mem_type::<$t>($ctx, name, &o);
+			} else {
+				run_type::<$t>($ctx, $stream, name, &o);
+			}
 		}
 	}};
 }
 
+macro_rules! nomem { ($ctx:expr, $s:expr, $f:expr; $($t:ty),* $(,)?) => { $( {
+	let name = stringify!($t);
+	if $f.map_or(true, |f: &str| name.contains(f)) {
+		run_type::<$t>($ctx, $s, name, &TypeOpts { zero_width_elems: false, small_alphabet: false, budget: 24 });
+	}
+} )* } }
 macro_rules! plain { ($ctx:expr, $s:expr, $f:expr; $($t:ty),* $(,)?) => { $( entry!($ctx, $s, $f, $t, zw=false, small=false, budget=24); )* } }
 macro_rules! small { ($ctx:expr, $s:expr, $f:expr; $($t:ty),* $(,)?) => { $( entry!($ctx, $s, $f, $t, zw=false, small=true, budget=24); )* } }
 macro_rules! zerow { ($ctx:expr, $s:expr, $f:expr; $($t:ty),* $(,)?) => { $( entry!($ctx, $s, $f, $t, zw=true, small=false, budget=24); )* } }
@@ -73,10 +84,15 @@ pub fn run_all(ctx: &mut Ctx, stream: &str) {
 			BitBox<u8, Lsb0>, BitBox<u8, Msb0>, BitBox<u16, Lsb0>, BitBox<u32, Msb0>, BitBox<u64, Lsb0>,
 			Vec<BitVec<u8, Msb0>>, Option<BitVec<u16, Lsb0>>,
 			bytes::Bytes, Option<bytes::Bytes>, Vec<bytes::Bytes>, (u8, bytes::Bytes),
-			generic_array::GenericArray<u8, generic_array::typenum::U4>,
-			generic_array::GenericArray<u32, generic_array::typenum::U3>,
-			generic_array::GenericArray<Vec<u8>, generic_array::typenum::U2>,
-			generic_array::GenericArray<TwinU32, generic_array::typenum::U0>,
 		);
+		if stream != "mem" {
+			// GenericArray has no DecodeWithMemTracking impl
+			nomem!(ctx, stream, f;
+				generic_array::GenericArray<u8, generic_array::typenum::U4>,
+				generic_array::GenericArray<u32, generic_array::typenum::U3>,
+				generic_array::GenericArray<Vec<u8>, generic_array::typenum::U2>,
+				generic_array::GenericArray<TwinU32, generic_array::typenum::U0>,
+			);
+		}
 	}
 }
